@@ -432,7 +432,14 @@ class Loop:
                     if po[0] != 'next':
                         outs.append(po)
                         continue
+                    # a return/raise that leaves the function from inside this body keeps the mark: postconditions
+                    # can tell "returned from inside loop N" from "returned after it" without naming a local
+                    po[1].ghost = dict(po[1].ghost)
+                    po[1].ghost['in_loops'] = tuple(po[1].ghost.get('in_loops', ())) + (ordinal,)
                     for bo in eng.exec_block(s.body, po[1]):
+                        if bo[0] in ('next', 'cont', 'break'):
+                            bo[1].ghost = dict(bo[1].ghost)
+                            bo[1].ghost['in_loops'] = tuple(x for x in bo[1].ghost.get('in_loops', ()) if x != ordinal)
                         if bo[0] in ('next', 'cont'):
                             st3 = bo[1]
                             if ends is not None:
